@@ -42,7 +42,7 @@ type C14Case struct {
 }
 
 var readKinds = []string{"getlog", "first", "last", "get"}
-var writeKinds = []string{"store", "storeseal", "sealthenstore", "sealthenstore", "delhead", "deltail", "set"}
+var writeKinds = []string{"store", "storeseal", "sealthenstore", "sealthenstore", "sealthendel", "sealthendel", "delhead", "deltail", "set"}
 
 func genC14(t *rapid.T) C14Case {
 	c := C14Case{SegSize: rapid.SampledFrom([]int{128, 256}).Draw(t, "seg")}
@@ -76,20 +76,21 @@ func genC14(t *rapid.T) C14Case {
 }
 
 type callResult struct {
-	call    Call
-	err     error
-	val     uint64
-	log     raft.Log
-	idx     uint64
-	logs    []*raft.Log
-	min     uint64
-	max     uint64
-	panicV  any
-	stack   string
-	done    bool
-	second  error // sealthenstore: error of the second StoreLogs
-	logs2   []*raft.Log
-	started bool
+	call      Call
+	err       error
+	val       uint64
+	log       raft.Log
+	idx       uint64
+	logs      []*raft.Log
+	min       uint64
+	max       uint64
+	panicV    any
+	stack     string
+	done      bool
+	second    error // sealthenstore: error of the second StoreLogs; sealthendel: of the DeleteRange
+	didSecond bool
+	logs2     []*raft.Log
+	started   bool
 }
 
 func bigEntry(seg int) kit.EntrySpec { return kit.EntrySpec{DataLen: seg + 8, Seed: 77} }
@@ -198,6 +199,16 @@ func runC14(c C14Case) (res common.Result) {
 					r.logs2 = []*raft.Log{kit.EntrySpec{DataLen: 10, Seed: 201}.Make(last+2, 1)}
 					r.second = w.StoreLogs(r.logs2)
 				}
+			case "sealthendel":
+				// a truncation issued right behind the append that filled the segment: it has to wait
+				// for the queued rotation (it lets go of the write lock meanwhile)
+				r.logs = []*raft.Log{bigEntry(c.SegSize).Make(last+1, 1)}
+				r.err = w.StoreLogs(r.logs)
+				if r.err == nil {
+					r.min, r.max = first, first+uint64(call.Arg)%v0.Len()
+					r.second = w.DeleteRange(r.min, r.max)
+					r.didSecond = true
+				}
 			case "delhead":
 				r.min, r.max = first, first+uint64(call.Arg)%v0.Len()
 				r.err = w.DeleteRange(r.min, r.max)
@@ -276,6 +287,15 @@ func runC14(c C14Case) (res common.Result) {
 					versions = append(versions, final.Clone())
 				}
 			}
+		case "sealthendel":
+			if r.err == nil {
+				final.Append(r.logs)
+				versions = append(versions, final.Clone())
+				if r.didSecond && r.second == nil {
+					final.Delete(r.min, r.max)
+					versions = append(versions, final.Clone())
+				}
+			}
 		case "delhead", "deltail":
 			if r.err == nil {
 				final.Delete(r.min, r.max)
@@ -339,7 +359,7 @@ func runC14(c C14Case) (res common.Result) {
 				res.Fail = common.Failf("wrong-error/"+r.call.K, "%s racing with Close returned %q (neither success nor ErrClosed); schedule: %v", r.call.K, r.err, ctl.Trace)
 				return
 			}
-		case "sealthenstore":
+		case "sealthenstore", "sealthendel":
 			if bad(r.err) || bad(r.second) {
 				res.Fail = common.Failf("wrong-error/store", "StoreLogs racing with Close returned %v / %v", r.err, r.second)
 				return
